@@ -2,7 +2,8 @@
 from ..core import Stream, hx, unhx
 from .. import mml, execstream
 
-RULE = ("permute: multi-track programs (1..12 tracks, numbers 0..40, blocks of track-local commands in any order/interleaving, first use after a higher "
+RULE = ("alone: a multi-track program and the same program with the blocks of all other tracks removed give the chosen track the same event list "
+        "(notes, controllers, programs, bends, meta events); permute: multi-track programs (1..12 tracks, numbers 0..40, blocks of track-local commands in any order/interleaving, first use after a higher "
         "number) and a re-ordering of the same blocks that keeps each track's own order: every MTrk chunk must be byte-identical; sem: the same "
         "programs against Spec.Core.sem (channels of implicitly created tracks); sync: TrackSync and PLAY(p1..pn) with parts of unequal length followed "
         "by a sentinel on every track — decoded notes and final pointers = sem. non-trivial = distinct outputs with >= 2 non-empty tracks")
@@ -18,6 +19,10 @@ def gen_blocks(rng):
         tr = rng.choice(nums)
         body = mml.gen_cmds(rng, 2, rng.randrange(1, 5), top=False)
         if rng.random() < 0.15: body.insert(0, ('ch', rng.randrange(1, 17)))
+        if rng.random() < 0.3:
+            # commands that write non-note events (meta, controller, program, bend): they belong to the chunk of the track they are issued on
+            body.insert(rng.randrange(0, len(body) + 1), ('raw', rng.choice(["TimeSignature(%d,%d)" % (rng.randint(2, 7), rng.choice([4, 8])), "Tempo(%d)" % rng.randint(60, 200),
+                "TrackName={\"t%d\"}" % rng.randint(0, 9), "y7,%d;" % rng.randint(0, 127), "@%d;" % rng.randint(1, 128), "PB(%d)" % rng.randint(-100, 100), "Marker={\"m\"}", "P(%d)" % rng.randint(0, 127)])))
         blocks.append((tr, body))
     return blocks
 
@@ -60,6 +65,33 @@ def streams(tier, rng, P, only=None, cases=None):
             return ("violation", "re-ordering blocks of different tracks changed a track chunk: %r vs %r" % (c["src"][:160], c["src2"][:160]))
         if m and not m[0].startswith("ok holds=1"): return ("violation", "tracks differ from the semantics (default channels?): " + m[0][:300])
         return None
+    # ---- a track's events depend on its own blocks only: the program restricted to one track gives that track the same events
+    def mk_alone():
+        cs = []
+        n = 3000 if big else 400
+        for i in range(n):
+            blocks = gen_blocks(rng)
+            k = rng.choice(sorted(set(b[0] for b in blocks)))
+            p1 = to_prog(blocks); p2 = to_prog([b for b in blocks if b[0] == k])
+            s1_, s2_ = mml.pr(p1), mml.pr(p2)
+            cs.append(dict(req="run2 %s %s" % (hx(s1_), hx(s2_)), src=s1_, src2=s2_, show=s1_[:300], k=k, ntr=len(set(b[0] for b in blocks)), key="a%d" % i))
+        for j, (a, b, k) in enumerate([("TR=1 l4 c TR=2 l4 d TimeSignature=3,4 e", "TR=2 l4 d TimeSignature=3,4 e", 2), ("TR(1) Tempo(90) c TR(0) d", "TR(1) Tempo(90) c", 1)]):
+            cs.append(dict(req="run2 %s %s" % (hx(a), hx(b)), src=a, src2=b, show=a, k=k, ntr=2, key="afixed%d" % j))
+        return cs
+    def alone_judge(c, impl, m):
+        st, f = impl
+        if st != "ok": return ("violation", "multi-track program did not run: " + st)
+        t1 = f["tracks1"].split(";"); t2 = f["tracks2"].split(";")
+        k = c["k"]
+        if k >= len(t1) or k >= len(t2): return ("mismatch", "track %d missing" % k)
+        if t1[k] != t2[k]:
+            return ("violation", "track %d has other events when the blocks of the other tracks are removed: %s vs %s" % (k, t1[k][:160], t2[k][:160]))
+        for j, ev in enumerate(t2):
+            if j != k and ev != "~":
+                return ("violation", "a program that only addresses track %d wrote events to track %d: %s" % (k, j, ev[:160]))
+        return None
+    s0 = Stream("alone", cases if (cases and only == "alone") else mk_alone(), lambda c, st, f: [], alone_judge,
+                lambda c, i, m: i[1].get("tracks1") if i[0] == "ok" and c["ntr"] >= 2 else None, "multi-track program vs the same program restricted to one track", timeout_case=20.0)
     s1 = Stream("permute", cases if (cases and only == "permute") else mk_perm(), perm_model, perm_judge,
                 lambda c, i, m: i[1].get("bin1") if i[0] == "ok" and c["ntr"] >= 2 else None, "block permutations", timeout_case=20.0)
     def mk_sync():
@@ -106,4 +138,4 @@ def streams(tier, rng, P, only=None, cases=None):
         return dict(req="run " + hx(src), src=src, show=src, sexp=mml.sexp(prog), key=case.get("key", "") + "-shrunk")
     s2.ast_rebuild = rebuild
     sx = execstream.exec_stream(tier, rng, P, only, cases)
-    return [s for s in (s1, s2, sx) if only in (None, s.name)]
+    return [s for s in (s0, s1, s2, sx) if only in (None, s.name)]
